@@ -195,9 +195,9 @@ def dfxp_write_i5(kinds: list[int]) -> str:
     return _dfxp(_expand(kinds, 0))
 
 
-def dfxp_write_i7(kinds: list[int]) -> str:
+def dfxp_write_i6(kinds: list[int]) -> str:
     """
-    pre: _dom(kinds, 7)
+    pre: _dom(kinds, 6)
     post: _ == ""
     """
     return _dfxp(_expand(kinds, 0))
@@ -230,9 +230,9 @@ def sami_write_i5(kinds: list[int]) -> str:
     return _sami(_expand(kinds, 0))
 
 
-def sami_write_i7(kinds: list[int]) -> str:
+def sami_write_i6(kinds: list[int]) -> str:
     """
-    pre: _dom(kinds, 7)
+    pre: _dom(kinds, 6)
     post: _ == ""
     """
     return _sami(_expand(kinds, 0))
@@ -254,9 +254,9 @@ def sami_write_b5(kinds: list[int]) -> str:
     return _sami(_expand(kinds, 1))
 
 
-def sami_write_b7(kinds: list[int]) -> str:
+def sami_write_b6(kinds: list[int]) -> str:
     """
-    pre: _dom(kinds, 7)
+    pre: _dom(kinds, 6)
     post: _ == ""
     """
     return _sami(_expand(kinds, 1))
@@ -278,9 +278,9 @@ def sami_write_u5(kinds: list[int]) -> str:
     return _sami(_expand(kinds, 2))
 
 
-def sami_write_u7(kinds: list[int]) -> str:
+def sami_write_u6(kinds: list[int]) -> str:
     """
-    pre: _dom(kinds, 7)
+    pre: _dom(kinds, 6)
     post: _ == ""
     """
     return _sami(_expand(kinds, 2))
@@ -313,9 +313,9 @@ def vtt_write_i5(kinds: list[int]) -> str:
     return _vtt(_expand(kinds, 0))
 
 
-def vtt_write_i7(kinds: list[int]) -> str:
+def vtt_write_i6(kinds: list[int]) -> str:
     """
-    pre: _dom(kinds, 7)
+    pre: _dom(kinds, 6)
     post: _ == ""
     """
     return _vtt(_expand(kinds, 0))
@@ -337,9 +337,9 @@ def vtt_write_b5(kinds: list[int]) -> str:
     return _vtt(_expand(kinds, 1))
 
 
-def vtt_write_b7(kinds: list[int]) -> str:
+def vtt_write_b6(kinds: list[int]) -> str:
     """
-    pre: _dom(kinds, 7)
+    pre: _dom(kinds, 6)
     post: _ == ""
     """
     return _vtt(_expand(kinds, 1))
@@ -361,9 +361,9 @@ def vtt_write_u5(kinds: list[int]) -> str:
     return _vtt(_expand(kinds, 2))
 
 
-def vtt_write_u7(kinds: list[int]) -> str:
+def vtt_write_u6(kinds: list[int]) -> str:
     """
-    pre: _dom(kinds, 7)
+    pre: _dom(kinds, 6)
     post: _ == ""
     """
     return _vtt(_expand(kinds, 2))
